@@ -86,6 +86,75 @@ func checkC16(c *fw.Ctx) {
 	checkNetworkControl(c)
 	checkTransportUse(c)
 	checkPortParse(c, "1 resolve")
+	checkFallbackValidated(c)
+}
+
+// checkFallbackValidated: "invalid server names are refused" also holds for the name a
+// well-known reply delegates to: the SRV / 8448 fallback (handleNoWellKnown) builds targets
+// from any string, so no path on which ParseAndValidateServerName rejected that very name
+// may reach it.
+func checkFallbackValidated(c *fw.Ctx) {
+	rule := "1 resolve"
+	construct := "no name that failed validation reaches the SRV / 8448 fallback"
+	if c.InlinedReports == nil {
+		c.InlinedReports = map[string]bool{}
+	}
+	c.InlinedReports[rule+"|"+construct] = true
+	sites := 0
+	for _, f := range c.P.SrcFuncs() {
+		if f.Pkg == nil || f.Pkg.Pkg.Path() != fw.ModPath+"/fclient" {
+			continue
+		}
+		for _, call := range fw.CallsTo(f, false, fw.NameIs("gmsl/fclient.handleNoWellKnown")) {
+			args := call.Common().Args
+			if len(args) < 2 {
+				continue
+			}
+			name := fw.Sig(args[1])
+			tgt, _ := call.(ssa.Instruction)
+			for _, v := range fw.CallsTo(f, false, fw.NameIs("gmsl/spec.ParseAndValidateServerName")) {
+				if fw.Sig(v.Common().Args[0]) != name {
+					continue
+				}
+				vv, _ := v.(ssa.Value)
+				if vv == nil || vv.Referrers() == nil {
+					continue
+				}
+				for _, r := range *vv.Referrers() {
+					ex, ok := r.(*ssa.Extract)
+					if !ok || ex.Index != 2 || ex.Referrers() == nil {
+						continue
+					}
+					for _, b := range f.Blocks {
+						if len(b.Instrs) == 0 {
+							continue
+						}
+						iff, ok := b.Instrs[len(b.Instrs)-1].(*ssa.If)
+						if !ok {
+							continue
+						}
+						cv, neg := fw.BoolCond(iff.Cond)
+						if cv != ssa.Value(ex) {
+							continue
+						}
+						sites++
+						invalid := 1
+						if neg {
+							invalid = 0
+						}
+						if fw.ReachableFromEdge(b, invalid, tgt) {
+							c.Fail(rule, construct, c.P.Pos(call.Pos()), fmt.Sprintf("%s: the fallback for %s is reachable from the branch on which ParseAndValidateServerName rejected that name (%s): an invalid (delegated) server name is turned into SRV lookups and a :8448 target instead of being refused", fw.FuncName(f), name, c.P.Pos(iff.Cond.Pos())))
+						} else {
+							c.Ok(rule, construct, c.P.Pos(call.Pos()), fw.FuncName(f)+": "+name+" rejected at "+c.P.Pos(iff.Cond.Pos())+" cannot reach the fallback")
+						}
+					}
+				}
+			}
+		}
+	}
+	if sites == 0 {
+		c.Undecided(rule, construct, "no fallback call whose name is validated in the same function was found")
+	}
 }
 
 func checkResolve(c *fw.Ctx) {
